@@ -66,6 +66,14 @@ fn explore(run: &mut Run, family: u8) {
         check_state(ctx, &g2, &n2, family);
         words_from(ctx, &g2, &extended(&small), &n2, len - 2, family);
     });
+    // LONG: single deep executions (hundreds of plies) with the same oracle
+    let lp = crate::universe::long_params(thorough);
+    let lmax = crate::universe::long_max(thorough);
+    let stride = if thorough { 5 } else { 4 };
+    run.par_shards(&format!("LONG: {} deterministic games of up to {} plies pushed and popped completely, full oracle every {} plies (single deep executions)", lp.len(), lmax, stride), lp.len(), |ctx, i| {
+        let (s, a, b) = lp[i];
+        long_run(ctx, s, a, b, lmax, stride, family);
+    });
     if family == 13 {
         equality(run, &gs[1]);
     } else {
